@@ -176,7 +176,7 @@ func newSumCase(shares uint8, max uint64, ctx []byte) (*icase, *buildErr) {
 		case 1:
 			return max, true
 		case 2:
-			return uint64(1), max == 1
+			return min(uint64(1), max), max <= 1
 		default:
 			v := rapid.Uint64Range(0, max).Draw(t, label)
 			return v, v == 0 || v == max
@@ -207,6 +207,9 @@ func newSumCase(shares uint8, max uint64, ctx []byte) (*icase, *buildErr) {
 	}
 	c.genEdit = func(t *rapid.T, m any) ([]edit, string) {
 		v := m.(uint64)
+		if nb == 0 {
+			return nil, "n/a" // no element to edit
+		}
 		k := pick(t, 4, "sum.ek")
 		if k == 0 && max != uint64(1)<<uint(nb)-1 {
 			// out-of-range sum with every entry a bit: a' in (max, 2^bits),
@@ -308,6 +311,9 @@ func newSumVecCase(shares uint8, length, nbits, chunk uint, ctx []byte) (*icase,
 	}
 	c.genEdit = func(t *rapid.T, m any) ([]edit, string) {
 		n := int(length * nbits)
+		if n == 0 {
+			return nil, "n/a"
+		}
 		i := idxBiased(t, n, int(chunk), "sv")
 		return []edit{{i, nonBit(t, p128, "sv")}}, "non-bit"
 	}
@@ -486,7 +492,7 @@ func newMhcvCase(shares uint8, length, maxW, chunk uint, ctx []byte) (*icase, *b
 			}
 			return e, "weight>max(claimed-weight-wrapped,all-bits)"
 		}
-		if k == 2 {
+		if k == 2 && nb > 0 {
 			// claimed weight differs from the true one
 			i := n + rapid.IntRange(0, nb-1).Draw(t, "m.wb")
 			cur := c.encode(m)[i]
@@ -551,7 +557,9 @@ func drawCtx(t *rapid.T) []byte {
 }
 
 func drawSumBound(t *rapid.T) uint64 {
-	switch pick(t, 10, "max.k") {
+	switch pick(t, 11, "max.k") {
+	case 10:
+		return 0 // zero bits: the only valid measurement is 0
 	case 0, 1, 2, 3, 4:
 		return pickFrom(t, sumBounds, "max")
 	case 5, 6:
@@ -569,6 +577,9 @@ func drawSumBound(t *rapid.T) uint64 {
 }
 
 func drawChunk(t *rapid.T, total int) uint {
+	if total < 1 {
+		total = 1
+	}
 	switch pick(t, 8, "chunk.k") {
 	case 0:
 		return 1
@@ -606,11 +617,12 @@ func drawCase(t *rapid.T, name string, shares uint8, large bool) (*icase, *build
 		if shares > 16 {
 			maxTotal = 48
 		}
-		nbits := uint(pickFrom(t, []int{1, 1, 2, 3, 8, 16, 32, 63, 64, 0, 0}, "bits"))
-		if nbits == 0 {
-			nbits = uint(rapid.IntRange(1, 64).Draw(t, "bits.v"))
+		nb := pickFrom(t, []int{1, 1, 2, 3, 8, 16, 32, 63, 64, -1, -1, 0}, "bits")
+		if nb < 0 {
+			nb = rapid.IntRange(1, 64).Draw(t, "bits.v")
 		}
-		ml := maxTotal / int(nbits)
+		nbits := uint(nb) // 0 bits: every entry is 0
+		ml := maxTotal / max(nb, 1)
 		if ml < 1 {
 			ml = 1
 		}
@@ -637,7 +649,9 @@ func drawCase(t *rapid.T, name string, shares uint8, large bool) (*icase, *build
 		}
 		length := uint(rapid.IntRange(1, ml).Draw(t, "length"))
 		var maxW uint
-		switch pick(t, 4, "maxw.k") {
+		switch pick(t, 5, "maxw.k") {
+		case 4:
+			maxW = 0 // zero bits: only the all-false vector is valid
 		case 0:
 			maxW = 1
 		case 1:
